@@ -37,8 +37,15 @@ impl<'a> G<'a> {
         if self.rng.chance(1, 40) { s.push('\0'); }
         s
     }
-    pub fn js_ident(&mut self) -> JS { JS::new(&self.ident()) }
-    pub fn member_name(&mut self) -> JS { let s = self.ident().replace(['<', '>'], "_"); JS::new(&s) }
+    /// now and then an UNPAIRED SURROGATE inside the identifier (legal in a CONSTANT_Utf8 and in every JVMS name; a Rust `str`
+    /// cannot hold one, so the bytes are spliced in after encoding). Class names are left alone: jar entry names need UTF-8.
+    fn with_lone_surrogate(&mut self, s: &str) -> JS {
+        let mut js = JS::new(s);
+        if self.rng.chance(1, 40) { crate::mutf8::encode_unit(0xD800 + self.rng.below(0x800) as u16, &mut js.0); js.0.extend_from_slice(b"s"); }
+        js
+    }
+    pub fn js_ident(&mut self) -> JS { let s = self.ident(); self.with_lone_surrogate(&s) }
+    pub fn member_name(&mut self) -> JS { let s = self.ident().replace(['<', '>'], "_"); self.with_lone_surrogate(&s) }
     pub fn any_string(&mut self) -> JS {
         match self.rng.below(8) {
             0 => JS::new(""),
